@@ -6,6 +6,9 @@ Import ListNotations.
 From NV Require Import Machine.Dfa Machine.Sem.
 
 Definition all_syms : list sym := map N.of_nat (seq 0 257).
+(** the symbols a parser without end() is ever given: the 256 byte values *)
+Definition data_syms : list sym := map N.of_nat (seq 0 256).
+Definition syms_for (eof : bool) : list sym := if eof then all_syms else data_syms.
 Lemma in_all_syms s : (s <= 256)%N -> In s all_syms.
 Proof.
   intros H. unfold all_syms. apply in_map_iff. exists (N.to_nat s). split; [apply N2Nat.id|].
